@@ -26,15 +26,19 @@ unsafe impl lock_api::RawRwLock for RawRwLock {
 
     #[inline]
     fn try_lock_exclusive(&self) -> bool {
-        self.state
-            .compare_exchange(0, WRITER, Ordering::Acquire, Ordering::Relaxed)
-            .is_ok()
+        // an attempt is a point at which the task may be descheduled, like a blocking acquisition
+        verif_rt::point(verif_rt::Site::DashExclusive);
+        let ok = self.try_exclusive_raw();
+        if ok {
+            verif_rt::point(verif_rt::Site::DashHeldExclusive);
+        }
+        ok
     }
 
     #[inline]
     fn lock_exclusive(&self) {
         verif_rt::point(verif_rt::Site::DashExclusive);
-        while !self.try_lock_exclusive() {
+        while !self.try_exclusive_raw() {
             verif_rt::contended();
         }
         // the lock is now held: let other tasks run into it
@@ -49,25 +53,18 @@ unsafe impl lock_api::RawRwLock for RawRwLock {
 
     #[inline]
     fn try_lock_shared(&self) -> bool {
-        let mut s = self.state.load(Ordering::Relaxed);
-        loop {
-            if s == WRITER {
-                return false;
-            }
-            match self
-                .state
-                .compare_exchange(s, s + 1, Ordering::Acquire, Ordering::Relaxed)
-            {
-                Ok(_) => return true,
-                Err(cur) => s = cur,
-            }
+        verif_rt::point(verif_rt::Site::DashShared);
+        let ok = self.try_shared_raw();
+        if ok {
+            verif_rt::point(verif_rt::Site::DashHeldShared);
         }
+        ok
     }
 
     #[inline]
     fn lock_shared(&self) {
         verif_rt::point(verif_rt::Site::DashShared);
-        while !self.try_lock_shared() {
+        while !self.try_shared_raw() {
             verif_rt::contended();
         }
         verif_rt::point(verif_rt::Site::DashHeldShared);
@@ -85,5 +82,31 @@ unsafe impl lock_api::RawRwLockDowngrade for RawRwLock {
     unsafe fn downgrade(&self) {
         let prev = self.state.swap(1, Ordering::Release);
         debug_assert_eq!(prev, WRITER);
+    }
+}
+
+impl RawRwLock {
+    #[inline]
+    fn try_exclusive_raw(&self) -> bool {
+        self.state
+            .compare_exchange(0, WRITER, Ordering::Acquire, Ordering::Relaxed)
+            .is_ok()
+    }
+
+    #[inline]
+    fn try_shared_raw(&self) -> bool {
+        let mut s = self.state.load(Ordering::Relaxed);
+        loop {
+            if s == WRITER {
+                return false;
+            }
+            match self
+                .state
+                .compare_exchange(s, s + 1, Ordering::Acquire, Ordering::Relaxed)
+            {
+                Ok(_) => return true,
+                Err(cur) => s = cur,
+            }
+        }
     }
 }
